@@ -181,7 +181,12 @@ func (ch *Chaos) ip(i int) string {
 	return fmt.Sprintf("10.1.0.%d", i+1)
 }
 
-func (ch *Chaos) addr(i int) string { return net.JoinHostPort(ch.ip(i), "7946") }
+func (ch *Chaos) addr(i int) string {
+	if i < len(ch.Nodes) && ch.Nodes[i].IP != "" {
+		return net.JoinHostPort(ch.Nodes[i].IP, "7946") // (a name that left may have come back from another address)
+	}
+	return net.JoinHostPort(ch.ip(i), "7946")
+}
 
 // plainTransport hides the node-aware half of the simulated endpoint, so that memberlist wraps it in its own
 // shim (addresses only, no node names) as it does for third-party transports written against the older interface.
@@ -361,6 +366,14 @@ func (ch *Chaos) apply(a faultAction) {
 		cn.Restarts++
 		cn.MetaLife = cn.Restarts
 		cn.MetaGen = 0
+		if a.P == 1 {
+			// ... from another address
+			if ch.Scn.V6 {
+				cn.IP = fmt.Sprintf("fd00:1:9::%x", cn.Idx+1)
+			} else {
+				cn.IP = fmt.Sprintf("10.1.9.%d", cn.Idx+1)
+			}
+		}
 		nd, err := ch.C.Add(ch.spec(cn))
 		if err != nil {
 			ch.C.sink.add(cn.Name, "harness/rejoin", "rejoin failed: %v", err)
